@@ -39,6 +39,7 @@ func (t flvTag) ts32() uint32 { return uint32(t.Ts[0])<<24 | uint32(t.Ts[1]) }
 type flvStep struct {
 	Op      string   `json:"op"`
 	N       int      `json:"n"`
+	Eof     bool     `json:"eof"` // Deliver: end-of-stream is reported by the Read that hands out the last of these bytes
 	K       int      `json:"k"`
 	Flen    int      `json:"flen"`
 	Pos     int      `json:"pos"`
@@ -142,12 +143,17 @@ func guarded(c *rp.Ctx, i int, raw json.RawMessage) rp.Result {
 
 // segReader hands out a complete byte string in segments: "whole" (as much as the caller takes),
 // "one" (1 byte per Read) or "random" (seeded sizes between 1 byte and 128 KiB).
+//
+// eofWithData: the Read that hands out the last byte reports io.EOF in the same call (n > 0, io.EOF - the io.Reader
+// contract allows it; network, HTTP body and decompressing readers do it); otherwise end-of-stream is a Read of its
+// own (0, io.EOF) as with bytes.Reader or os.File. FlvFile.tla: DeliverFinal / eofWith.
 type segReader struct {
-	data  []byte
-	pos   int
-	mode  string
-	rng   *rand.Rand
-	reads int
+	data        []byte
+	pos         int
+	mode        string
+	eofWithData bool
+	rng         *rand.Rand
+	reads       int
 }
 
 func (r *segReader) Read(p []byte) (int, error) {
@@ -173,7 +179,94 @@ func (r *segReader) Read(p []byte) (int, error) {
 	copy(p, r.data[r.pos:r.pos+n])
 	r.pos += n
 	r.reads++
+	if r.eofWithData && r.pos == len(r.data) {
+		return n, io.EOF
+	}
 	return n, nil
+}
+
+// ------------------------------------------------------- the caller's memory
+
+// callerMem is FlvFile.tla's arena: the bodies of all tags of a file lie adjacent, in file order, in ONE buffer of the
+// caller (tags cut out of a receive buffer without copying). WriteTag k gets the window [off, off+n) of it, a slice
+// whose capacity reaches to the end of the buffer, so the bodies of the later tags are its spare capacity; the last
+// body has cap == len like a body allocated on its own. snap is the application's copy taken before the first call:
+// all expectations (layout, demuxed bodies) come from it, and after every call into the muxer the caller's memory
+// must still equal it (InputsUntouched).
+type callerMem struct {
+	arena, snap []byte
+	off         []int
+}
+
+func newCallerMem(tags []flvTag, seed int) *callerMem {
+	m := &callerMem{off: make([]int, len(tags)+1)}
+	total := 0
+	for k, t := range tags {
+		m.off[k] = total
+		total += t.N
+	}
+	m.off[len(tags)] = total
+	m.arena = make([]byte, 0, total)
+	for _, t := range tags {
+		m.arena = append(m.arena, ld.FillBytes(t.N, t.ID, seed)...)
+	}
+	m.snap = append([]byte(nil), m.arena...)
+	return m
+}
+
+// body is what the caller hands to WriteTag (len n, capacity up to the end of its buffer).
+func (m *callerMem) body(k int) []byte { return m.arena[m.off[k]:m.off[k+1]] }
+
+// built is the body as the application built it.
+func (m *callerMem) built(k int) []byte { return m.snap[m.off[k]:m.off[k+1]:m.off[k+1]] }
+
+func (m *callerMem) builtAll() [][]byte {
+	b := make([][]byte, len(m.off)-1)
+	for k := range b {
+		b[k] = m.built(k)
+	}
+	return b
+}
+
+// untouched compares the caller's memory with the snapshot after WriteTag k (0-based) returned.
+func (m *callerMem) untouched(k int, tags []flvTag) (what, deviation string) {
+	if bytes.Equal(m.arena, m.snap) {
+		return "", ""
+	}
+	j := 0
+	for m.arena[j] == m.snap[j] {
+		j++
+	}
+	owner := 0
+	for owner+1 < len(tags) && j >= m.off[owner+1] {
+		owner++
+	}
+	what = fmt.Sprintf("WriteTag %d (%d byte body at offset %d of the caller's %d byte buffer) wrote into the caller's memory: offset %d "+
+		"(byte %d of the body of tag %d) was %#02x and is now %#02x; the muxer must only read its inputs (bodies were adjacent "+
+		"windows of one buffer, so this is the body of another tag)", k+1, tags[k].N, m.off[k], len(m.arena), j, j-m.off[owner], owner+1, m.snap[j], m.arena[j])
+	// mux-append-in-place: exactly PreviousTagSize of tag k stored right behind its body
+	end := m.off[k+1]
+	if len(m.arena)-end >= 4 {
+		x := append([]byte(nil), m.snap...)
+		pts := uint32(11 + tags[k].N)
+		x[end], x[end+1], x[end+2], x[end+3] = byte(pts>>24), byte(pts>>16), byte(pts>>8), byte(pts)
+		if bytes.Equal(x, m.arena) {
+			deviation = "C09/mux-append-in-place"
+		}
+	}
+	return
+}
+
+// devError is a failed expectation that equals a deviation the specification names.
+type devError struct{ msg, dev string }
+
+func (e devError) Error() string { return e.msg }
+
+func devOf(err error) string {
+	if d, ok := err.(devError); ok {
+		return d.dev
+	}
+	return ""
 }
 
 func isEOFClass(err error) bool {
@@ -194,9 +287,12 @@ func caseSeed(seed int, content int, salt string) int64 {
 
 // demuxCheck reads `data` through the library's demuxer under one segmentation and compares every
 // returned value with the case. which = "library-written" / "specification-written".
-func demuxCheck(cs *flvCase, bodies [][]byte, data []byte, which, mode string, sseed int64) error {
-	r := &segReader{data: data, mode: mode}
-	if mode == "random" {
+func demuxCheck(cs *flvCase, bodies [][]byte, data []byte, which, mode string, eofWithData bool, sseed int64) error {
+	r := &segReader{data: data, mode: mode, eofWithData: eofWithData}
+	if eofWithData {
+		mode += "+eof (the last bytes come together with io.EOF)"
+	}
+	if r.mode == "random" {
 		r.rng = rand.New(rand.NewSource(sseed))
 	}
 	d, err := flv.NewDemuxer(r)
@@ -224,8 +320,14 @@ func demuxCheck(cs *flvCase, bodies [][]byte, data []byte, which, mode string, s
 				where, k+1, tt, size, ts, t.T, t.N, t.ts32())
 		}
 		body, err := d.ReadTag(size)
+		rp.Alive()
 		if err != nil {
-			return fmt.Errorf("%s: tag %d: ReadTag(%d) failed at offset %d: %v", where, k+1, size, r.pos, err)
+			e := devError{msg: fmt.Sprintf("%s: tag %d of %d: ReadTag(%d) failed although all %d bytes of the file were handed out (reader at offset %d): %v",
+				where, k+1, len(cs.Tags), size, len(data), r.pos, err)}
+			if eofWithData && r.pos == len(data) && isEOFClass(err) {
+				e.dev = "C09/demux-err-before-n" // the bytes that came with io.EOF were dropped
+			}
+			return e
 		}
 		if !bytes.Equal(body, bodies[k]) {
 			return fmt.Errorf("%s: tag %d: body differs from the body written: %s", where, k+1, rp.FirstDiff(body, bodies[k]))
@@ -266,10 +368,9 @@ func replayFile(c *rp.Ctx, i int, raw json.RawMessage) rp.Result {
 	if len(want) != cs.Len {
 		panic(fmt.Sprintf("LD expands to %d bytes, the specification says %d", len(want), cs.Len))
 	}
-	bodies := make([][]byte, len(cs.Tags))
-	for k, t := range cs.Tags {
-		bodies[k] = ld.FillBytes(t.N, t.ID, c.Seed)
-	}
+	mem := newCallerMem(cs.Tags, c.Seed) // the bodies as adjacent windows of one buffer of the caller
+	bodies := mem.builtAll()             // ... and as the application built them (snapshot)
+	rp.Alive()
 
 	// (a) the library's muxer writes exactly the layout
 	w := &bytes.Buffer{}
@@ -280,43 +381,62 @@ func replayFile(c *rp.Ctx, i int, raw json.RawMessage) rp.Result {
 	if err := m.WriteHeader(cs.Flags.Video, cs.Flags.Audio); err != nil {
 		return rp.Fail(i, "WriteHeader(%v, %v) failed: %v", cs.Flags.Video, cs.Flags.Audio, err)
 	}
+	var res rp.Result
+	res.OK = true
+	res.Nontriv = true
 	for k, t := range cs.Tags {
-		if err := m.WriteTag(flv.TagType(t.T), t.ts32(), bodies[k]); err != nil {
+		if err := m.WriteTag(flv.TagType(t.T), t.ts32(), mem.body(k)); err != nil {
 			return rp.Fail(i, "WriteTag %d (type %d, timestamp %#x, %d bytes) failed: %v", k+1, t.T, t.ts32(), t.N, err)
+		}
+		rp.Alive()
+		if what, dev := mem.untouched(k, cs.Tags); what != "" && res.OK {
+			res = rp.Result{OK: false, Nontriv: true, What: what, Deviation: dev}
 		}
 	}
 	if err := m.Close(); err != nil {
 		return rp.Fail(i, "muxer Close failed: %v", err)
 	}
 	got := w.Bytes()
-	var res rp.Result
-	res.OK = true
-	res.Nontriv = true
 	if !bytes.Equal(got, want) {
-		res = rp.Result{OK: false, Nontriv: true,
-			What:      "bytes written by the muxer differ from the FLV layout: " + describeDiff(got, want, cs.Tags),
-			Deviation: classifyFile(got, want, cs.Tags)}
+		what := "bytes written by the muxer differ from the FLV layout of the tags handed to it: " + describeDiff(got, want, cs.Tags)
+		if res.OK {
+			res = rp.Result{OK: false, Nontriv: true, What: what, Deviation: classifyFile(got, want, cs.Tags)}
+		} else {
+			res.What += " | " + what
+		}
 	}
 
 	// (b) library-written and (c) specification-written bytes are demuxed to the tags written, under each segmentation
 	content := rp.ContentHash(raw)
+	// Segmentations: whole / 1 byte per Read / random, each with end-of-stream as a Read of its own and with end-of-stream
+	// delivered together with the last bytes. When the library wrote exactly the specification's bytes one byte string is
+	// both files; otherwise the library-written bytes are demuxed as well.
+	same := bytes.Equal(got, want)
+	note := func(err error) {
+		if res.OK {
+			res = rp.Result{OK: false, Nontriv: true, What: err.Error(), Deviation: devOf(err)}
+		} else {
+			res.What += " | " + err.Error()
+		}
+	}
+	which := "specification-written"
+	if same {
+		which = "specification-written (= library-written)"
+	}
+modes:
 	for _, mode := range []string{"whole", "one", "random"} {
 		sseed := caseSeed(c.Seed, content, mode)
-		if err := demuxCheck(&cs, bodies, want, "specification-written", mode, sseed); err != nil {
-			if res.OK {
-				res = rp.Result{OK: false, Nontriv: true, What: err.Error()}
-			} else {
-				res.What += " | " + err.Error()
+		for _, eof := range []bool{false, true} {
+			if err := demuxCheck(&cs, bodies, want, which, mode, eof, sseed); err != nil {
+				note(err)
+				break modes
 			}
-			break
-		}
-		if err := demuxCheck(&cs, bodies, got, "library-written", mode, sseed); err != nil {
-			if res.OK {
-				res = rp.Result{OK: false, Nontriv: true, What: err.Error()}
-			} else {
-				res.What += " | " + err.Error()
+			if !same {
+				if err := demuxCheck(&cs, bodies, got, "library-written", mode, eof, sseed); err != nil {
+					note(err)
+					break modes
+				}
 			}
-			break
 		}
 	}
 	return res
@@ -427,6 +547,8 @@ var errWouldBlock = fmt.Errorf("the call asks for more bytes than have been deli
 type schedReader struct {
 	w       *bytes.Buffer
 	segs    []int
+	eofSeg  int // index (in the sequence of all segments delivered) of the one that ends with io.EOF, or -1
+	served  int // segments completely handed out
 	pos     int
 	closed  bool
 	blocked int
@@ -438,6 +560,7 @@ func (r *schedReader) Read(p []byte) (int, error) {
 	}
 	for len(r.segs) > 0 && r.segs[0] == 0 {
 		r.segs = r.segs[1:]
+		r.served++
 	}
 	if len(r.segs) == 0 {
 		if r.closed && r.pos == r.w.Len() {
@@ -453,6 +576,9 @@ func (r *schedReader) Read(p []byte) (int, error) {
 	copy(p, r.w.Bytes()[r.pos:r.pos+n])
 	r.pos += n
 	r.segs[0] -= n
+	if r.segs[0] == 0 && r.served == r.eofSeg {
+		return n, io.EOF // the last bytes of the finished file, together with end-of-stream
+	}
 	return n, nil
 }
 
@@ -466,16 +592,15 @@ func replaySched(c *rp.Ctx, i int, raw json.RawMessage) rp.Result {
 		panic(err)
 	}
 	want := l.Must(c.Seed)
-	bodies := make([][]byte, len(cs.Tags))
-	for k, t := range cs.Tags {
-		bodies[k] = ld.FillBytes(t.N, t.ID, c.Seed)
-	}
+	mem := newCallerMem(cs.Tags, c.Seed)
+	bodies := mem.builtAll()
 	w := &bytes.Buffer{}
 	m, err := flv.NewMuxer(w)
 	if err != nil {
 		return rp.Fail(i, "NewMuxer: %v", err)
 	}
-	r := &schedReader{w: w}
+	r := &schedReader{w: w, eofSeg: -1}
+	nsegs := 0
 	d, err := flv.NewDemuxer(r)
 	if err != nil {
 		return rp.Fail(i, "NewDemuxer: %v", err)
@@ -505,8 +630,11 @@ func replaySched(c *rp.Ctx, i int, raw json.RawMessage) rp.Result {
 		case "WriteTag":
 			t := cs.Tags[s.K-1]
 			before := w.Len()
-			if err := m.WriteTag(flv.TagType(t.T), t.ts32(), bodies[s.K-1]); err != nil {
+			if err := m.WriteTag(flv.TagType(t.T), t.ts32(), mem.body(s.K-1)); err != nil {
 				return rp.Fail(i, "%s %d failed: %v", at, s.K, err)
+			}
+			if what, dev := mem.untouched(s.K-1, cs.Tags); what != "" {
+				return rp.Result{I: i, OK: false, Nontriv: true, What: at + ": " + what, Deviation: dev}
 			}
 			if w.Len() != s.Flen {
 				return rp.Fail(i, "%s %d (%d byte body): wrote %d bytes, the layout says %d", at, s.K, t.N, w.Len()-before, s.Flen-before)
@@ -523,6 +651,13 @@ func replaySched(c *rp.Ctx, i int, raw json.RawMessage) rp.Result {
 			}
 			delivered += s.N
 			r.segs = append(r.segs, s.N)
+			if s.Eof {
+				if !r.closed || delivered != w.Len() || s.N == 0 {
+					rp.Bug("schedule: end-of-stream with data must be the last, non-empty segment of a closed file")
+				}
+				r.eofSeg = nsegs
+			}
+			nsegs++
 		case "ReadHeader":
 			ver, hv, ha, err := d.ReadHeader()
 			if err != nil {
@@ -544,7 +679,12 @@ func replaySched(c *rp.Ctx, i int, raw json.RawMessage) rp.Result {
 		case "ReadTag":
 			body, err := d.ReadTag(size)
 			if err != nil {
-				return rp.Fail(i, "%s(%d) failed: %s", at, size, explain(err))
+				res := rp.Fail(i, "%s(%d) failed: %s", at, size, explain(err))
+				if r.eofSeg >= 0 && r.pos == w.Len() && isEOFClass(err) {
+					res.What += " [the last bytes were delivered together with io.EOF]"
+					res.Deviation = "C09/demux-err-before-n"
+				}
+				return res
 			}
 			if !bytes.Equal(body, bodies[s.K-1]) {
 				return rp.Fail(i, "%s: body differs from the body of tag %d: %s", at, s.K, rp.FirstDiff(body, bodies[s.K-1]))
